@@ -1,6 +1,7 @@
 package main
 
 import (
+	"strings"
 	"context"
 	"errors"
 	"fmt"
@@ -51,7 +52,7 @@ func c11Payloads() []c11Payload {
 	}
 }
 
-var c11Outcomes = []string{"nil", "soft", "hard", "wrapSoft", "wrapHard", "plain", "panic", "unset"}
+var c11Outcomes = []string{"nil", "soft", "hard", "wrapSoft", "wrapHard", "plain", "panic", "unset", "late-nil", "late-soft", "late-hard", "late-wrapSoft"}
 
 func c11Verifier(outcome string) func(context.Context, *vhdr.Header) error {
 	return func(context.Context, *vhdr.Header) error {
@@ -81,11 +82,24 @@ func runC11(tier string, r *rng) {
 				panic(err)
 			}
 			ctx := context.Background()
+			late := false
 			if oc == "unset" {
 				ctx = cancelled // no verifier registered: the validator waits for one until its context ends
+			} else if strings.HasPrefix(oc, "late-") {
+				// the message is already parked in the validator when the verifier is registered (start-up window)
+				late = true
+				oc2 := strings.TrimPrefix(oc, "late-")
+				go func() {
+					time.Sleep(15 * time.Millisecond)
+					_ = sub.SetVerifier(c11Verifier(oc2))
+				}()
+				var cancel context.CancelFunc
+				ctx, cancel = context.WithTimeout(ctx, 2*time.Second)
+				defer cancel()
 			} else if err := sub.SetVerifier(c11Verifier(oc)); err != nil {
 				panic(err)
 			}
+			_ = late
 			topic := "t"
 			msg := &pubsub.Message{Message: &pubsub_pb.Message{Data: p.data, Topic: &topic}, ValidatorData: p.vd}
 			res, crashed := func() (res pubsub.ValidationResult, crashed bool) {
@@ -109,7 +123,7 @@ func runC11(tier string, r *rng) {
 					deliv = "same"
 				}
 			}
-			emit("C11 payload=%s outcome=%s => verdict=%s delivered=%s", p.name, oc, verdict, deliv)
+			emit("C11 payload=%s outcome=%s => verdict=%s delivered=%s", p.name, strings.TrimPrefix(oc, "late-"), verdict, deliv)
 		}
 	}
 }
